@@ -99,13 +99,24 @@ func (s *expStepBStructure) verifyProofStructure(proof ExpStepBProof) bool {
 }
 
 func (s *expStepBStructure) commitmentsFromProof(g zkproof.Group, list []*big.Int, challenge *big.Int, bases zkproof.BaseLookup, proof ExpStepBProof) []*big.Int {
+	// The Mul proof is a second proof of knowledge, under this branch's own challenge, for the
+	// commitment named mulname in the environment. Bind it to that commitment: were the proof's
+	// own copy used as base, the step would be proven for a multiplier of the prover's choosing.
+	// The copy still enters the hash (an altered copy changes the challenge), nothing else.
+	mulCopy := proof.Mul.Commit
+	if outer := bases.Base(s.mulname); outer != nil {
+		proof.Mul.Commit = outer
+	}
+
 	// inner proof
 	proof.Bit.setName(strings.Join([]string{s.bitname, "hider"}, "_"))
 	proof.Mul.setName(s.mulname)
 	proofs := zkproof.NewProofMerge(&proof.Bit, &proof.Mul)
 
 	// Generate commitments
+	mulStart := len(list)
 	list = s.mul.commitmentsFromProof(g, list, challenge, proof.Mul)
+	list[mulStart] = mulCopy
 	list = s.bitRep.CommitmentsFromProof(g, list, challenge, bases, &proofs)
 	list = s.prePostMul.commitmentsFromProof(g, list, challenge, bases, &proofs, proof.MultiplicationProof)
 
